@@ -63,7 +63,7 @@ CHECKS = {
  "C20": ("kani", "bounded model checking of the compiled wildcard matcher against a dynamic-programming reference (Kani/CBMC), in-crate harness over the private match_pattern and external harnesses over PatternSet; source-level symbolic execution (rsx + z3) of the policy document codec: the hand-written serde impls, their visitors and the attribute-named functions of model.rs run on symbolic values and documents, derive/serde_json as a library model validated witness by witness on the real build",
          "all patterns x inputs of concrete sizes up to 7x7 over every 7-bit byte (8x8 over a small alphabet, 3x3 over all bytes), panic/overflow freedom included; pattern sets of zero or one pattern; empty patterns refused; policy documents: decode(encode(v)) == v for every value of every model type within size 2 (symbolic strings), and decode(document) == the IAM grammar's reading (or refusal) for every JSON document within nesting depth 2 / width 2 and for every Statement / Policy object with any subset of members and at most one faulty member",
          "pattern sets of two or more patterns and longer strings are outside the claim; the serde derive / serde_json semantics are a library model (assumptions in the evidence) checked against the real build on every sampled path; member names outside the grammar, several simultaneous faults and deeper documents are outside the claim",
-         "DESIGN.md 5/C20 and 0.8", True),
+         "DESIGN.md 5/C20 and 0.7", True),
  "C07": ("rsx", "source-level symbolic execution of ops::call/prepare, SignatureContext::check (all v2/v4 branches) and every generated Operation::call; z3 decides feasibility and entailment of the guard conditions on every path; concrete scenario family replayed on the real build",
          "all feasible paths (no bound on requests/configurations: every Option/Result/flag is symbolic) are checked for: backend or custom-route call only after check() returned Ok and the access hook (or the default rule) approved, in that order; identity handed on is the payload of check(); check() authenticates only behind a successful comparison with a signature computed under the provider's secret for that key; denials are returned unchanged; no provider => signed requests refused",
          "trusts the rsx executor and its primitive catalogue (listed in the evidence; helper extractors are uninterpreted fallible functions), validated by 120 concrete scenarios signed by an independent reference signer; what the signature algorithms compute is C05/C06/C10/C11",
